@@ -377,7 +377,7 @@ async fn run_history(case: &Value, base: &Path) -> Value {
                     owner: None,
                     peers_args: PeersArgs { first: op["first"].as_bool().unwrap_or(false), ..Default::default() },
                     rewards_address: RewardsAddress::from_str("0x03B770D9cD32077cC0bF330c13C114a87643B124").unwrap(),
-                    rpc_address: None,
+                    rpc_address: op["rpc_ip"].as_str().map(|s| std::net::Ipv4Addr::from_str(s).unwrap()),
                     rpc_port: port_range(&op["rpc_port"]),
                     service_data_dir_path: data.clone(),
                     service_log_dir_path: logs.clone(),
@@ -403,6 +403,21 @@ async fn run_history(case: &Value, base: &Path) -> Value {
                     let mut s = sim.lock().unwrap();
                     if let Some(pid) = s.procs.remove(&n.antnode_path) {
                         killed.push(pid);
+                    }
+                    0
+                } else {
+                    99
+                }
+            }
+            "restart" => {
+                // out of band: the process dies and the OS service manager brings it back under a fresh pid
+                if let Some(n) = reg.nodes.get(i) {
+                    let mut s = sim.lock().unwrap();
+                    if let Some(pid) = s.procs.remove(&n.antnode_path) {
+                        killed.push(pid);
+                        let fresh = s.next_pid;
+                        s.next_pid += 1;
+                        s.procs.insert(n.antnode_path.clone(), fresh);
                     }
                     0
                 } else {
